@@ -21,6 +21,8 @@ type nativeResult struct {
 	Known  []string    `json:"known"`
 }
 
+var gNativeTimeout = "20m"
+
 // runNative executes the vectors against the real build of pkgDir (go test -overlay) and returns one result per vector.
 func runNative(ov *overlaySet, pkgDir string, vecs []*Vector) ([]nativeResult, error) {
 	tmp, err := os.MkdirTemp("", "symgo-native-")
@@ -43,7 +45,7 @@ func runNative(ov *overlaySet, pkgDir string, vecs []*Vector) ([]nativeResult, e
 	if err != nil {
 		return nil, err
 	}
-	cmd := exec.Command("go", "test", "-vet=off", "-count=1", "-timeout", "20m", "-overlay", ovPath, "-run", "^TestVerifReplay$", "./"+pkgDir)
+	cmd := exec.Command("go", "test", "-vet=off", "-count=1", "-timeout", gNativeTimeout, "-overlay", ovPath, "-run", "^TestVerifReplay$", "./"+pkgDir)
 	cmd.Dir = gRepo
 	cmd.Env = append(childEnv(), "VERIF_VECTORS="+vf, "VERIF_RESULTS="+rf)
 	out, err := cmd.CombinedOutput()
